@@ -2,7 +2,7 @@
 From Boltons Require Import Lib.Prelude Lib.C02_Syntax Spec.C02_Spec Model.C02_Model
   Model.C02_PtrModel Model.C02_PtrCache Proofs.C02_PtrLemmas Proofs.C02_PtrRep Proofs.C02_PtrSim Check.C02_Check
   Model.C02_PtrInterp Gen.C02_Gen Proofs.C02_GenObl Proofs.C02_SpecSane
-  Model.C02_MethInterp Gen.C02_GenM Proofs.C02_MethObl
+  Model.C02_MethInterp Gen.C02_GenM Proofs.C02_MethObl Proofs.C02_HeapThms
   Proofs.C02_Lists Proofs.C02_Inv Proofs.C02_Heap Proofs.C02_Thms Proofs.C02_Counters Proofs.C02_Recency.
 Close Scope N_scope.
 Open Scope nat_scope.
@@ -416,3 +416,50 @@ Theorem C02_method_update_self : forall c p f,
   call_method c genm_update (params 0 MNone MNone MSelf (MMap f)) p = of_step (pstep1 c p (UpdateSelf f)).
 Proof. exact genm_update_self_ok. Qed.
 Print Assumptions C02_method_update_self.
+
+(* ---- counters and recency over whole heaps (copies, update between caches), both levels ------------- *)
+(* run_logs / run_counts (Proofs/C02_HeapThms.v) keep, from outside, one use log and one
+   triple of lookup counts per cache of the heap: an operation on cache i appends
+   op_uses / adds lookup_delta (judged by `k in cache`); copy() starts a new cache
+   with the source's present keys in latest-use order and zero counts; c_i.update(c_j)
+   appends the source's keys to the target's log, counts one hit per item on the
+   source and (LRU) appends the same keys to the source's log. *)
+Theorem C02_heap_recency : forall c init ops,
+  1 <= c_max c ->
+  Forall2 (fun m lg => keys (ring m) = filter (d_mem (store m)) (keep_last lg))
+          (run_heap c init ops) (run_logs c init ops).
+Proof. exact heap_recency. Qed.
+Print Assumptions C02_heap_recency.
+
+Theorem C02_heap_counters : forall c init ops,
+  1 <= c_max c ->
+  Forall2 (fun m x => (hit m, miss m, soft m) = x /\ (soft m <= miss m)%N)
+          (run_heap c init ops) (run_counts c init ops).
+Proof. exact heap_counters. Qed.
+Print Assumptions C02_heap_counters.
+
+(* the same for the pointer-level model the correspondence run evaluates: the cells
+   walked from anchor[NEXT] are the present keys in latest-use order; the counters
+   are the lookup counts *)
+Theorem C02_pointer_heap_recency : forall c init ops,
+  1 <= c_max c ->
+  Forall2 (fun p lg => keys (p_flatten (ps_ring p)) = filter (d_mem (ps_store p)) (keep_last lg))
+          (prun_heap c init ops) (run_logs c init ops).
+Proof. exact pointer_heap_recency. Qed.
+Print Assumptions C02_pointer_heap_recency.
+
+Theorem C02_pointer_heap_counters : forall c init ops,
+  1 <= c_max c ->
+  Forall2 (fun p x => (ps_hit p, ps_miss p, ps_soft p) = x /\ (ps_soft p <= ps_miss p)%N)
+          (prun_heap c init ops) (run_counts c init ops).
+Proof. exact pointer_heap_counters. Qed.
+Print Assumptions C02_pointer_heap_counters.
+
+Example C02_heap_thms_inhabited :
+  let c := mkCfg LRU 2 None in
+  let ops := [On 0 (SetItem 1 10); On 0 (SetItem 2 20); On 0 (GetItem 1); Copy 0; On 1 (SetItem 3 30);
+              UpdateFrom 1 0; On 0 (Get 9 0)] in
+  run_logs c [] ops = [[1; 2; 1; 1; 2]; [2; 1; 3; 1; 2]]
+  /\ run_counts c [] ops = [(3, 1, 1)%N; (0, 0, 0)%N]
+  /\ map (fun p => keys (p_flatten (ps_ring p))) (prun_heap c [] ops) = [[1; 2]; [1; 2]].
+Proof. vm_compute. repeat split. Qed.
